@@ -341,7 +341,7 @@ def obligations(tier):
     else:
         for sh, cfg in enumerate(CONFIGS):
             obs.append(Ob(f'soup_plss_{sh}', 'S', ob_soup, f'PLSSDesc on 3-token sequences, config {cfg!r}', functions=S, weight=9,
-                          timeout=7000, params={'n': 3, 'toks': tuple(range(len(TOKENS))), 'cfgs': (cfg,), 'what': 'plss', 'cap': 6500}))
+                          timeout=7000, params={'n': 3, 'toks': (0, 1, 2, 3, 4, 5, 6, 7, 9, 10, 13, 14, 15, 18, 23, 24), 'cfgs': (cfg,), 'what': 'plss', 'cap': 6500}))
         obs.append(Ob('soup_plss_4tok', 'S', ob_soup, 'PLSSDesc on 4-token sequences', functions=S, weight=9, timeout=7000,
                       params={'n': 4, 'toks': TOK_Q, 'cfgs': ('', 'sec_colon_cautious,segment'), 'what': 'plss', 'cap': 6500}))
         obs.append(Ob('soup_tract', 'S', ob_soup, 'Tract on token sequences', functions=S[4:], weight=8, timeout=7000,
